@@ -298,3 +298,121 @@ Proof.
 Qed.
 
 End AffineFloat.
+
+(* ---------------------------------------------------------------- the statement with elementary hypotheses *)
+Lemma NNZ_neg0 x : ffinite x -> x <> (-0)%float -> NNZ x.
+Proof.
+  unfold ffinite, NNZ, FR. intros Fx Hx Hz.
+  destruct (Prim2B x) as [s|s| |s m e B] eqn:E; simpl in *; try discriminate.
+  - destruct s; [|reflexivity]. exfalso. apply Hx. rewrite <- (B2Prim_Prim2B x), E. reflexivity.
+  - exfalso. destruct s; [assert (F2R (Float radix2 (cond_Zopp true (Zpos m)) e) < 0)%R by now apply F2R_lt_0
+                         |assert (0 < F2R (Float radix2 (cond_Zopp false (Zpos m)) e))%R by now apply F2R_gt_0];
+    simpl in *; lra.
+Qed.
+
+Local Open Scope R_scope.
+Lemma jacobian_affine_exact_float_thm (M : matrix AF) (c x : list PrimFloat.float) (d : PrimFloat.float)
+    (Mz : nat -> nat -> Z) (Cz Xz : nat -> Z) (Dd eM eX : Z) :
+  wf M -> length x = cols M ->
+  (forall i j, (i < rows M)%nat -> (j < cols M)%nat ->
+     ffinite (ment (NReal AF) M i j) /\ FR (ment (NReal AF) M i j) = IZR (Mz i j) * bpow radix2 eM /\
+     ment (NReal AF) M i j <> (-0)%float) ->
+  (forall j, (j < cols M)%nat ->
+     ffinite (nth j x 0%float) /\ FR (nth j x 0%float) = IZR (Xz j) * bpow radix2 eX /\ nth j x 0%float <> (-0)%float) ->
+  (forall i, (i < rows M)%nat -> ffinite (nth i c 0%float) /\ FR (nth i c 0%float) = IZR (Cz i) * bpow radix2 (eM + eX)) ->
+  ffinite d -> FR d = IZR Dd * bpow radix2 eX -> (0 < Dd)%Z ->
+  (-1074 <= eX <= 971)%Z -> (-1074 <= eM <= 971)%Z -> (-1074 <= eM + eX <= 971)%Z ->
+  (forall j, (j < cols M)%nat -> (Z.abs (Xz j) + Dd < 2 ^ 53)%Z) ->
+  (forall i, (i < rows M)%nat ->
+     (zsumn (cols M) (fun k => Z.abs (Mz i k) * (Z.abs (Xz k) + Dd)) + Z.abs (Cz i) < 2 ^ 53)%Z) ->
+  jacobian_tr (NReal AF) (fun p => Ok (aff (NReal AF) M c p)) x d =
+    Ok (x, M, x :: map (perturbed (NReal AF) x d) (seq 0 (length x))) /\
+  jacobian (NReal AF) (fun p => Ok (aff (NReal AF) M c p)) x d =
+    Ok (M, x :: map (perturbed (NReal AF) x d) (seq 0 (length x))).
+Proof.
+  intros Wf Lx HM HX HC Fd Rd HD HeX HeM HeE HbX Hrow.
+  assert (E : jacobian_tr (NReal AF) (fun p => Ok (aff (NReal AF) M c p)) x d =
+              Ok (x, M, x :: map (perturbed (NReal AF) x d) (seq 0 (length x)))).
+  { apply (jacobian_affine_exact_float_lemma M c x d Mz Cz Xz Dd eM eX Wf Lx).
+    - intros i j Hi Hj. destruct (HM i j Hi Hj) as (F1 & R1 & N1). split; [split; assumption|now apply NNZ_neg0].
+    - intros j Hj. destruct (HX j Hj) as (F1 & R1 & N1). split; [split; assumption|now apply NNZ_neg0].
+    - intros i Hi. destruct (HC i Hi) as (F1 & R1). split; assumption.
+    - split; assumption.
+    - exact HD.
+    - exact HeX.
+    - exact HeM.
+    - exact HeE.
+    - exact HbX.
+    - exact Hrow. }
+  split; [exact E|]. unfold jacobian. rewrite E. reflexivity.
+Qed.
+Local Close Scope R_scope.
+
+(* ---------------------------------------------------------------- non-vacuity: delta = 2^-20, small-integer 2 x 3 matrix *)
+Definition exj_M : matrix AF := @mkM AF [1; 2; 3; -1; 0; 5]%float 2 3.
+Definition exj_c : list PrimFloat.float := [0.5; 7]%float.
+Definition exj_x : list PrimFloat.float := [0.5; -1.25; 3]%float.
+Definition exj_d : PrimFloat.float := 0x1p-20%float.                          (* 2^-20 *)
+Definition exj_Mz (i j : nat) : Z := nth (i * 3 + j) [1; 2; 3; -1; 0; 5]%Z 0%Z.
+Definition exj_Xz (j : nat) : Z := nth j [524288; -1310720; 3145728]%Z 0%Z.   (* x 2^20 *)
+Definition exj_Cz (i : nat) : Z := nth i [524288; 7340032]%Z 0%Z.             (* c 2^20 *)
+
+Ltac neg0w := let H := fresh in intro H; apply (f_equal Prim2SF) in H; vm_compute in H; discriminate H.
+Lemma Dy_unfold3 x m e : Dy x m e -> x <> (-0)%float ->
+  ffinite x /\ FR x = (IZR m * bpow radix2 e)%R /\ x <> (-0)%float.
+Proof. intros [F R] N. auto. Qed.
+Lemma Dy_unfold2 x m e : Dy x m e -> ffinite x /\ FR x = (IZR m * bpow radix2 e)%R.
+Proof. exact (fun H => H). Qed.
+Ltac dyw3 := apply Dy_unfold3; [cbn; dyw|cbn; neg0w].
+
+Lemma exj_M_dy i j : (i < 2)%nat -> (j < 3)%nat ->
+  ffinite (ment (NReal AF) exj_M i j) /\ FR (ment (NReal AF) exj_M i j) = (IZR (exj_Mz i j) * bpow radix2 0)%R /\
+  ment (NReal AF) exj_M i j <> (-0)%float.
+Proof.
+  intros Hi Hj.
+  do 2 (destruct i as [|i]; [do 3 (destruct j as [|j]; [dyw3|]); lia|]). lia.
+Qed.
+Lemma exj_x_dy j : (j < 3)%nat ->
+  ffinite (nth j exj_x 0%float) /\ FR (nth j exj_x 0%float) = (IZR (exj_Xz j) * bpow radix2 (-20))%R /\
+  nth j exj_x 0%float <> (-0)%float.
+Proof. intros Hj. do 3 (destruct j as [|j]; [dyw3|]). lia. Qed.
+Lemma exj_c_dy i : (i < 2)%nat ->
+  ffinite (nth i exj_c 0%float) /\ FR (nth i exj_c 0%float) = (IZR (exj_Cz i) * bpow radix2 (0 + -20))%R.
+Proof.
+  intros Hi. do 2 (destruct i as [|i]; [apply Dy_unfold2; cbn; dyw|]). lia.
+Qed.
+Lemma exj_d_dy : ffinite exj_d /\ FR exj_d = (IZR 1 * bpow radix2 (-20))%R.
+Proof. apply Dy_unfold2. dyw. Qed.
+Lemma exj_bx j : (j < 3)%nat -> Z.abs (exj_Xz j) + 1 < 2 ^ 53.
+Proof. intros Hj. do 3 (destruct j as [|j]; [cbn; lia|]). lia. Qed.
+Lemma exj_brow i : (i < 2)%nat ->
+  zsumn 3 (fun k => Z.abs (exj_Mz i k) * (Z.abs (exj_Xz k) + 1)) + Z.abs (exj_Cz i) < 2 ^ 53.
+Proof. intros Hi. do 2 (destruct i as [|i]; [cbn; lia|]). lia. Qed.
+
+Example exj_value :
+  jacobian (NReal AF) (fun p => Ok (aff (NReal AF) exj_M exj_c p)) exj_x exj_d =
+    Ok (exj_M, [[0.5; -1.25; 3]; [0x1.00002p-1; -1.25; 3]; [0.5; -0x1.3ffffp+0; 3]; [0.5; -1.25; 0x1.800008p+1]]%float).
+Proof. vm_compute. reflexivity. Qed.
+
+(* outside the hypotheses, delta = 1e-8 (not dyadic; the binary64 number 0x1.5798ee2308c3ap-27): every non-zero entry of the
+   returned matrix is wrong from the 9th digit on (0.99999999392... for 1), and the coordinate x_0 = 0.9999999999
+   (0x1.ffffffff2419p-1) comes back one ulp smaller: the later columns are evaluated at a point that is not x + delta e_j *)
+Definition exj_x2 : list PrimFloat.float := [0x1.ffffffff2419p-1; -1.25; 3]%float.
+Definition exj_d2 : PrimFloat.float := 0x1.5798ee2308c3ap-27%float.
+Example exj_inexact :
+  exists st J evs, jacobian_tr (NReal AF) (fun p => Ok (aff (NReal AF) exj_M exj_c p)) exj_x2 exj_d2 = Ok (st, J, evs) /\
+    map (fun k => PrimFloat.eqb (nth k (buf J) 0%float) (nth k (buf exj_M) 0%float)) (seq 0 6) =
+      [false; false; false; false; true; false] /\
+    PrimFloat.eqb (nth 0 st 0%float) (nth 0 exj_x2 0%float) = false /\
+    PrimFloat.ltb (nth 0 st 0%float) (nth 0 exj_x2 0%float) = true /\
+    nth 0 (nth 2 evs []) 0%float = nth 0 st 0%float.
+Proof. do 3 eexists. split; [vm_compute; reflexivity|]. repeat split; vm_compute; reflexivity. Qed.
+
+(* the sign hypotheses are needed: a coordinate -0 is "restored" to +0 and an entry -0 of M is returned as +0 *)
+Example exj_negzero :
+  exists st J evs,
+    jacobian_tr (NReal AF) (fun p => Ok (aff (NReal AF) (@mkM AF [1; -0; 3; -1; 0; 5]%float 2 3) exj_c p))
+                [-0; -1.25; 3]%float exj_d = Ok (st, J, evs) /\
+    PrimFloat.get_sign (nth 0 st 0%float) = false /\ PrimFloat.get_sign (nth 1 (buf J) 1%float) = false /\
+    PrimFloat.get_sign (-0)%float = true.
+Proof. do 3 eexists. split; [vm_compute; reflexivity|]. repeat split; vm_compute; reflexivity. Qed.
